@@ -1,8 +1,11 @@
 #!/bin/bash
-# verify_seed.sh <worktree> : confirm a seeded change (suite passes with it; demo fails with it, passes without)
+# verify_seed.sh <worktree> : confirm a seeded change (suite passes with it; demo fails with it, passes without).
+# The worktree is first normalised to HEAD + _seed/patch.diff (sub-agents share refs/stash, so
+# their trees cannot be trusted); the change is toggled with git apply / git apply -R.
 wt=$1
 export GOFLAGS= GOPROXY=off GOSUMDB=off GOTOOLCHAIN=local
 cd $wt || exit 2
+git checkout -q -- . ; git apply _seed/patch.diff || { echo "patch.diff does not apply to HEAD"; exit 2; }
 echo "== diff stat"; git diff --stat -- . ':(exclude)_seed' | tail -3
 echo "== suite with change"
 (go build ./... && go test -count=1 ./pkg/... 2>&1 | grep -v "no test files" && cd tests && go test -vet=off -count=1 ./... 2>&1 | grep -v "no test files") ; cd $wt; git checkout -q go.work.sum
@@ -10,8 +13,8 @@ echo "== demo with change (expect FAIL / non-zero)"
 bash _seed/demo/run.sh > /tmp/seed_with.txt 2>&1; echo "exit=$?"; tail -3 /tmp/seed_with.txt
 git checkout -q go.work.sum 2>/dev/null
 echo "== demo without change (expect PASS / zero)"
-git stash -q -- $(git diff --name-only -- . ':(exclude)_seed' ':!go.work.sum')
+git apply -R _seed/patch.diff
 bash _seed/demo/run.sh > /tmp/seed_without.txt 2>&1; echo "exit=$?"; tail -3 /tmp/seed_without.txt
 git checkout -q go.work.sum 2>/dev/null
-git stash pop -q
+git apply _seed/patch.diff
 git status --short | head -5
